@@ -764,6 +764,15 @@ theorem skel_Enqueue_ok :
      "err := executeLocal(cmd, stdoutPath, stderrPath, localpreflight, metadata)"] := by
   first | exact Or.inr rfl | exact Or.inl rfl
 
+/-- The translated ties of `GetSystemReqs` (`Props/C12Tie.lean`) are about terms that were
+really TRANSLATED from the current source: when the translator falls back to its committed
+default (function left the translatable subset, fragment marker not found) this obligation
+breaks — without it the tie theorems would stay true of the default and say nothing about the
+tree. -/
+theorem translated_ties_extracted :
+    Gen.tr_GSR_centi_extracted = true ∧ Gen.tr_GSR_mem_extracted = true ∧
+    Gen.tr_GSR_vmem_extracted = true := by decide
+
 /- `skel_GetSystemReqs_ok` (the textual skeleton of `GetSystemReqs`) has been RETIRED: the
 integer logic of `GetSystemReqs` is now translated from the Go source on every run and tied by
 theorems (`Props/C12Tie.lean`: `tr_GSR_centi_eq_model`, `tr_GSR_mem_eq_model`,
